@@ -478,6 +478,16 @@ fn run_case(c: &Case, rec: &mut Rec) -> CaseResult {
             exp_out.len(),
             s.written.iter().zip(exp_out.iter()).position(|(a, b)| a != b)
         );
+        // "on the wire": a transport that buffers (TLS, a BufWriter) only sends on flush, so an idle
+        // stream must have flushed everything it handed to the socket
+        vensure!(
+            s.flushed_upto == s.written.len(),
+            "framing-outbound-not-flushed",
+            "the stream is idle but only {} of the {} octets handed to the socket were followed by a flush (native vectored writes: {})",
+            s.flushed_upto,
+            s.written.len(),
+            c.vectored
+        );
     } else {
         // the stream ended: what was written must still be a prefix of the framed messages
         vensure!(
